@@ -1,7 +1,7 @@
 (* C12, part 4: the recognised grammar is well-formed, and the main theorems.
      compile_wf_nul_free : safe_schema s env -> regex_nul_free s -> wf_text (compile_schema s env)
      compile_wf_no_regex : safe_schema s env -> no REGEX member is picked -> wf_text (compile_schema s env)
-     compile_wf_open_refuted : the statement WITHOUT regex_nul_free is false (REGEX "[\0]"). *)
+     compile_wf_full_refuted : the statement WITHOUT regex_nul_free is false (a REGEX class containing NUL). *)
 From OV Require Import Base.Strs Gen.GbnfGen Gbnf.Syntax Gbnf.Compiler Gbnf.Safe Gbnf.Facts Gbnf.WfAuto Gbnf.WfLines Gbnf.WfText.
 Open Scope N_scope.
 
@@ -159,7 +159,7 @@ Let D : list str := n_ws :: names ++ DT env.
 Lemma hf_defs : defs G = D.
 Proof.
   unfold G, D. destruct ws_rule_facts as (Wd & _ & _).
-  rewrite !defs_app, Wd, Hdefs, defs_tail_c. reflexivity.
+  rewrite (defs_app [rule_of_line L_ws]), (defs_app FR), (defs_app [refs_rule names]), Wd, Hdefs, defs_tail_c. reflexivity.
 Qed.
 
 Lemma hf_subT r : str_in r (n_ws :: DT env) = true -> str_in r D = true.
@@ -187,7 +187,8 @@ Proof. unfold wf_root. rewrite hf_defs. apply hf_subT. exact root_in_DT. Qed.
 Lemma hf_refs : wf_refs G = true.
 Proof.
   unfold wf_refs. rewrite hf_defs. unfold G. destruct ws_rule_facts as (_ & Wr & _).
-  rewrite !grammar_refs_app, Wr. cbn [app]. rewrite !forallb_app.
+  rewrite (grammar_refs_app [rule_of_line L_ws]), (grammar_refs_app FR), (grammar_refs_app [refs_rule names]), Wr.
+  rewrite app_nil_l, (forallb_app _ (grammar_refs FR)), (forallb_app _ (grammar_refs [refs_rule names])).
   apply andb_true_iff; split; [|apply andb_true_iff; split].
   - exact (forallb_impl _ _ _ hf_subA Hrefs).
   - cbn [grammar_refs flat_map]. rewrite app_nil_r, refs_rule_refs.
@@ -219,7 +220,7 @@ Qed.
 Lemma hf_noempty : wf_noempty G = true.
 Proof.
   unfold G. destruct ws_rule_facts as (_ & _ & Wn).
-  rewrite !wf_noempty_app, Wn, Hnoe, tail_c_noempty.
+  rewrite (wf_noempty_app [rule_of_line L_ws]), (wf_noempty_app FR), (wf_noempty_app [refs_rule names]), Wn, Hnoe, tail_c_noempty.
   unfold wf_noempty at 1. cbn [forallb]. rewrite refs_rule_noempty. reflexivity.
 Qed.
 
@@ -288,7 +289,7 @@ Qed.
 Definition compile_wf_full : Prop :=
   forall s env, safe_schema s env = true -> wf_text (compile_schema s env) = true.
 
-(* ... is false: REGEX "[\0]" passes clause 5 (Safe.line_rule runs the recogniser without the C-string cut)
+(* ... is false: a REGEX whose class body is one NUL character passes clause 5 (Safe.line_rule runs the recogniser without the C-string cut)
    but the text handed to llama.cpp ends at the NUL, inside the character class *)
 Definition nul_regex_schema : schema := sch [fld w_NAME [CRegex [c_lbr; 0; c_rbr]]].
 
@@ -307,6 +308,70 @@ Qed.
 Corollary compile_wf_full_modulo_nul :
   forall s env, safe_schema s env && regex_nul_free s = true -> wf_text (compile_schema s env) = true.
 Proof. intros s env H. apply andb_true_iff in H as [H1 H2]. exact (compile_wf_nul_free s env H1 H2). Qed.
+
+(* ---- the extra clause stated on the SOURCE pattern: _compile_regex never introduces a NUL ------------------ *)
+Lemma takeb_pres (P q : N -> bool) s : forallb P s = true -> forallb P (takeb q s) = true.
+Proof.
+  induction s as [|c s IH]; intro H; [reflexivity|]. cbn [takeb]. destruct (q c); [|reflexivity].
+  cbn [forallb] in *. apply andb_true_iff in H as [H1 H2]. rewrite H1, IH by exact H2. reflexivity.
+Qed.
+
+Lemma nz_no_nul s : forallb nz s = true -> no_nul s = true.
+Proof.
+  unfold no_nul, memb. induction s as [|c s IH]; [reflexivity|]. cbn [forallb existsb]. intro H.
+  apply andb_true_iff in H as [H1 H2]. unfold nz in H1. apply negb_true_iff in H1.
+  rewrite N.eqb_sym, H1. cbn [orb]. apply IH. exact H2.
+Qed.
+
+Lemma simple_class_nz p body q : forallb nz p = true -> simple_class p = Some (body, q) ->
+  forallb nz body = true /\ forallb nz q = true.
+Proof.
+  intros Hp. unfold simple_class. destruct p as [|c r]; [discriminate|].
+  cbn [forallb] in Hp. apply andb_true_iff in Hp as [_ Hr].
+  destruct (N.eqb c c_lbr); [|discriminate].
+  pose proof (takeb_pres nz (fun x => negb (N.eqb x c_rbr)) r Hr) as Hb.
+  pose proof (dropb_pres nz (fun x => negb (N.eqb x c_rbr)) r Hr) as Hd.
+  destruct (takeb _ r) as [|b0 bs] eqn:Eb; [discriminate|].
+  destruct (dropb _ r) as [|y r2] eqn:Ed; [discriminate|].
+  cbn [forallb] in Hd. apply andb_true_iff in Hd as [_ Hd].
+  destruct r2 as [|x1 [|x2 [|x3 r3]]].
+  - intro E. injection E as <- <-. split; [exact Hb|reflexivity].
+  - cbn [forallb] in Hd. apply andb_true_iff in Hd as [Hx _].
+    destruct (_ || _ || _).
+    + intro E. injection E as <- <-. split; [exact Hb|]. cbn. rewrite Hx. reflexivity.
+    + destruct (N.eqb x1 c_nl); [|discriminate]. intro E. injection E as <- <-. split; [exact Hb|reflexivity].
+  - cbn [forallb] in Hd. apply andb_true_iff in Hd as [Hx _].
+    destruct (_ && _); [|discriminate]. intro E. injection E as <- <-. split; [exact Hb|]. cbn. rewrite Hx. reflexivity.
+  - discriminate.
+Qed.
+
+Lemma compile_regex_nz p : forallb nz p = true -> forallb nz (compile_regex p) = true.
+Proof.
+  intro Hp. unfold compile_regex.
+  set (q := rstrip_set gbnf_regex_rstrip (lstrip_set gbnf_regex_lstrip p)).
+  assert (Hq : forallb nz q = true).
+  { unfold q, rstrip_set, lstrip_set. rewrite forallb_rev. apply dropb_pres. rewrite forallb_rev. apply dropb_pres. exact Hp. }
+  destruct (existsb _ _); [reflexivity|].
+  destruct (simple_class q) as [[body qu]|] eqn:E.
+  - destruct (simple_class_nz _ _ _ Hq E) as [Hb Hqu]. rewrite !forallb_app, Hb. cbn [forallb andb nz].
+    destruct qu; [reflexivity|exact Hqu].
+  - destruct (_ || _); [reflexivity|]. apply py_replace_pres; [reflexivity|exact Hq].
+Qed.
+
+Definition regex_src_nul_free (s : schema) : bool :=
+  forallb (fun f => match picked f with Some (CRegex p) => no_nul p | _ => true end) (sc_fields s).
+
+Lemma regex_src_nul_free_sound s : regex_src_nul_free s = true -> regex_nul_free s = true.
+Proof.
+  unfold regex_src_nul_free, regex_nul_free. apply forallb_impl. intros f Hf.
+  rewrite pattern_of_picked. unfold is_regex_field. destruct (picked f) as [c|]; [|reflexivity].
+  destruct c; try reflexivity. cbn [negb orb compile_constraint].
+  apply nz_no_nul, compile_regex_nz, no_nul_nz. exact Hf.
+Qed.
+
+Theorem compile_wf_src s env :
+  safe_schema s env = true -> regex_src_nul_free s = true -> wf_text (compile_schema s env) = true.
+Proof. intros H Hz. apply compile_wf_nul_free; [exact H|apply regex_src_nul_free_sound; exact Hz]. Qed.
 
 (* ---- non-vacuity --------------------------------------------------------------------------------------------- *)
 (* six fields of different kinds (ENUM with a quote and a backslash, REGEX, CONST, TYPE NUMBER, DATE, no chain),
